@@ -834,6 +834,13 @@ def fixtures():
     # the dynamic API without any event: no `events` key, and an empty `events {}` block
     out.append([('name', 'M'), ('initial', 'A'), ('dynamic', True), ('states', [('leaf', 'A', 'D0'), ('leaf', 'B', None)])])
     out.append([('name', 'M'), ('initial', 'A'), ('context', 'Ctx'), ('dynamic', True), ('states', [('leaf', 'A', None)]), ('events', [])])
+    # a superstate and a leaf whose names glue to the same string as another pair: "Power"+"OnHold" = "PowerOn"+"Hold"
+    # (and "Power"+"On"... : a key made of an ancestor and a leaf must keep them apart)
+    out.append([('name', 'M'), ('initial', 'Off'), ('dynamic', True),
+                ('states', [('super', 'Power', None, [('leaf', 'OnHold', None), ('leaf', 'Off', None),
+                                                      ('super', 'PowerOn', None, [('leaf', 'Hold', 'D1'), ('leaf', 'Run', None)])])]),
+                ('events', [_ev('go', _tr(['Off'], 'PowerOn')), _ev('pause', _tr(['PowerOn'], 'OnHold')),
+                            _ev('resume', _tr(['OnHold'], 'Run')), _ev('halt', _tr(['Power'], 'Off'))])])
     # names whose concatenations coincide, one state a prefix of another: "Tasks"+"end" = "Task"+"send" in lower case,
     # "Open"+"HalfClose" = "OpenHalf"+"Close" in PascalCase and "open"_"half_close" = "open_half"_"close" in snake_case
     # (a key built by gluing a state to an event, with or without a separator, identifies two different pairs)
@@ -853,7 +860,7 @@ def fixtures():
 def name_fixture_indices():
     """positions (in the K2 corpus) of the fixtures whose point is the identifiers they use"""
     n = len(fixtures())
-    return [n - 2, n - 1]
+    return [n - 3, n - 2, n - 1]
 
 
 def fam_names(mi, rnd, tier):
